@@ -1,6 +1,7 @@
 // C06 correspondence harness: drives the real TCPIP::DataTracker with the op lines of the line protocol.
 //   init <seq> | seg <seq> <hex> [@off] | adv <seq>
 #include "common.h"
+#include "c06_show.h"
 #include <tins/tcp_ip/data_tracker.h>
 #include <memory>
 using namespace Tins;
@@ -14,7 +15,7 @@ static std::string show(const std::string& r, const TCPIP::DataTracker& t) {
     for (auto& kv : t.buffered_payload()) {      // std::map: ascending key order = canonical order
         if (!first) o << ",";
         first = false;
-        o << kv.first << ":" << to_hex(kv.second);
+        o << show_chunk(kv.first, kv.second);
     }
     return o.str();
 }
